@@ -104,9 +104,13 @@ class Driver:
             st = j["st"]
             if st in ("PD", "R"):
                 sq.append((rid, st))
-                qs.append((rid, ("hqw" if any(self.job(k)["st"] in ("PD", "R") for k in j["hold"]) else "qw") if st == "PD" else "r"))
-            sa.append((rid, {"PD": "PENDING", "R": "RUNNING", "OK": "COMPLETED", "FAIL": "FAILED", "CA": "CANCELLED by 0"}[st]))
-            bj.append((rid, {"PD": "PEND", "R": "RUN", "OK": "DONE", "FAIL": "EXIT", "CA": "EXIT"}[st]))
+                qs.append((rid, ("hqw" if any(self.job(k)["st"] in ("PD", "R", "E") for k in j["hold"]) else "qw") if st == "PD" else "r"))
+            if st == "E":
+                # alive in the queue, shown with a code gwf has no class for (only generated for sge, lsf, slurm_noacct)
+                sq.append((rid, "SI"))
+                qs.append((rid, "Eqw"))
+            sa.append((rid, {"PD": "PENDING", "R": "RUNNING", "E": "PENDING", "OK": "COMPLETED", "FAIL": "FAILED", "CA": "CANCELLED by 0"}[st]))
+            bj.append((rid, {"PD": "PEND", "R": "RUN", "E": "UNKWN", "OK": "DONE", "FAIL": "EXIT", "CA": "EXIT"}[st]))
         self.sb.render(squeue=sq, sacct=sa, qstat=qs, bjobs=bj)
 
     def job(self, jid):
@@ -522,7 +526,7 @@ class Driver:
             if c["cmd"] == CANCEL[self.backend]:
                 jid = self.norm_id(c["argv"][-1]) if c["argv"] else -7
                 reqs.append(jid)
-                if c["res"] == "ok" and 1 <= jid <= len(self.jobs) and self.job(jid)["st"] in ("PD", "R"):
+                if c["res"] == "ok" and 1 <= jid <= len(self.jobs) and self.job(jid)["st"] in ("PD", "R", "E"):
                     self.job(jid)["st"] = "CA"
         out = (r.stdout or "") + (r.stderr or "")
         reported = [self.inv.get(n, n) for n in re.findall(r"Target (\S+) could not be cancelled", out)]
@@ -613,7 +617,7 @@ class Driver:
         afterok = self.backend != "sge"
         for k in j["hold"]:
             st = self.job(k)["st"] if 1 <= k <= len(self.jobs) else "OK"
-            if st in ("PD", "R") or (afterok and st != "OK"):
+            if st in ("PD", "R", "E") or (afterok and st != "OK"):
                 return False
         return True
 
@@ -641,7 +645,7 @@ class Driver:
         if self.backend == "local":
             return self.step_sched_local(h)
         a = h["act"]
-        want = {"JobStart": ("PD",), "JobEnd": ("R",), "Purge": ("OK", "FAIL", "CA")}[a]
+        want = {"JobStart": ("PD",), "JobEnd": ("R",), "Purge": ("OK", "FAIL", "CA"), "JobStick": ("PD",), "JobUnstick": ("E",)}[a]
         j = self.real_of(h["j"])
         if j is not None and (j["st"] not in want or (a == "Purge" and j["gone"])):
             j = None
@@ -650,7 +654,7 @@ class Driver:
             afterok = self.backend != "sge"
             for k in j["hold"]:
                 st = self.job(k)["st"] if 1 <= k <= len(self.jobs) else "OK"
-                if st in ("PD", "R") or (afterok and st != "OK"):
+                if st in ("PD", "R", "E") or (afterok and st != "OK"):
                     j = None
                     break
         if j is None:
@@ -661,6 +665,10 @@ class Driver:
         if j:
             if a == "JobStart":
                 j["st"] = "R"
+            elif a == "JobStick":
+                j["st"] = "E"
+            elif a == "JobUnstick":
+                j["st"] = "PD"
             elif a == "JobEnd":
                 j["st"] = "OK" if h["ok"] else "FAIL"
                 if h["ok"]:
@@ -718,7 +726,7 @@ class Driver:
                 self.step_cancel(h)
             elif a in ("EditSource", "DeleteOutput", "EditSpec", "SetUseHash"):
                 self.step_env(h)
-            elif a in ("JobStart", "JobEnd", "Purge", "JobInherit"):
+            elif a in ("JobStart", "JobEnd", "Purge", "JobInherit", "JobStick", "JobUnstick"):
                 self.step_sched(h)
             elif a == "PoolRestart":
                 self.step_pool_restart(h)
